@@ -302,7 +302,6 @@ def check_only(crate, opt, rep, cfg):
             + ("" if not extra else " — VIOLATED: also builds %s: a rewrite other than path fusion" % sorted(extra)))
     # pushes into `optimized`: fused/reconstructed aggregates or mem::replace of the original
     tr = Tracer(opt)
-    opt_locals = set(opt.locals_named("optimized"))
     n = 0
     for bb, t in find_calls(opt, ["std::vec::Vec::<T, A>::push"]):
         recv = t["args"][0]
